@@ -2,6 +2,7 @@ package main
 
 import (
 	"fmt"
+	"sync"
 	"net"
 	"sort"
 	"strings"
@@ -124,6 +125,62 @@ func runC37(c *Ctx) error {
 		if hi%250 == 0 {
 			c.Sample(map[string]string{"history": strings.Join(toks, " "), "results": strings.Join(outs, " ")})
 		}
+	}
+	// concurrent: a re-join races a leave (and another node's re-join) on one address; at quiescence the
+	// per-node lists must agree with the address table (the model's invariant), whatever the schedule
+	rounds := 4000
+	if c.Thorough() {
+		rounds = 150000
+	}
+	pool := quicmemberlist.NewVerifMembersPool()
+	mk := func(ai, ni int) quicmemberlist.Member {
+		m, _ := quicmemberlist.NewMember("m", addrs[ai], nodes[ni].Address(), nodes[ni].Publickey(), "127.0.0.1:1", true)
+		return m
+	}
+	bad := 0
+	for r := 0; r < rounds && bad < 3; r++ {
+		ai := r % 2
+		pool.Set(mk(ai, 0))
+		start := make(chan struct{})
+		var wg sync.WaitGroup
+		acts := []func(){
+			func() { pool.Set(mk(ai, r%len(nodes))) },
+			func() { _, _ = pool.Remove(addrs[ai]) },
+			func() { pool.Set(mk(ai, (r+1)%len(nodes))) },
+		}
+		for gi := 0; gi < 2+r%2; gi++ {
+			wg.Add(1)
+			go func(f func()) {
+				defer wg.Done()
+				<-start
+				f()
+			}(acts[gi])
+		}
+		close(start)
+		wg.Wait()
+		c.Eval(1)
+		// quiescent check
+		m, _ := pool.Get(addrs[ai])
+		present := pool.Exists(addrs[ai])
+		id := net.JoinHostPort(addrs[ai].IP.String(), fmt.Sprint(addrs[ai].Port))
+		for ni := range nodes {
+			in := 0
+			for _, x := range pool.VerifNodeMembers(nodes[ni].Address()) {
+				if x == id {
+					in++
+				}
+			}
+			want := 0
+			if present && m != nil && m.Address().Equal(nodes[ni].Address()) {
+				want = 1
+			}
+			if in != want {
+				bad++
+				c.Violation("C37:concurrent-lists-inconsistent", fmt.Sprintf("round %d: address %s present=%v but occurs %d times in node %d's list (expected %d)", r, id, present, in, ni+1, want),
+					map[string]interface{}{"round": r, "schedule": "re-join vs leave vs re-join on one address, started together"})
+			}
+		}
+		_, _ = pool.Remove(addrs[ai])
 	}
 	return nil
 }
